@@ -12,6 +12,13 @@ import TsV.Model.Config
 import TsV.Model.Annotation
 import TsV.Model.Files
 import TsV.Lemmas.C15_Driver
+import TsV.Lemmas.C09_Defs
+import TsV.Lemmas.C04_TypeScript
+import TsV.Lemmas.C04_Kotlin
+import TsV.Lemmas.C04_Swift
+import TsV.Lemmas.C04_Scala
+import TsV.Lemmas.C04_Go
+import TsV.Lemmas.C04_Python
 /-!
 # `tsmodel`: one s-expression request per line in, one JSON answer per line out.
 The driver only decodes, calls the model's executable definitions and prints.
@@ -139,6 +146,47 @@ def jOptInt : Option Int → J
 
 def bad (why : String) : J := .obj [("bad-request", .str why.toList)]
 
+/-- C04: the binding-semantics reading (`TsV.C04.*.isOptional` / `stripOptional`) of the fact record the
+back-end model builds for every named field of every struct and struct variant of `d`:
+`[name, optional, type without the marker]`; for Python (whose semantics is the relation
+`Py.Denotes`) the raw record `[name, default is None, printed type]`. -/
+def c04Facts (E : Ext) (lang : Generate.LangCfg) (d : ParsedData) : J :=
+  let fields : List (List Str × RustField) :=
+    d.structs.flatMap (fun s => s.fields.map fun f => (s.genericTypes, f)) ++
+    d.enums.flatMap fun e => e.variants.flatMap fun v =>
+      match v with
+      | .anonymousStruct id _ fs =>
+        fs.map fun f => ((Lang.anonymousStruct e [] id.original fs).genericTypes, f)
+      | _ => []
+  let row (f : RustField) (o : Bool) (core : Str) : J := .arr [.str f.id.original, .bool o, .str core]
+  .arr (fields.filterMap fun (gens, f) =>
+    match lang with
+    | .typescript cfg =>
+      (match Lang.TypeScript.fieldFacts cfg gens f [] with
+       | .ok (tf, _) => some (row f (C04.Ts.isOptional tf) (C04.Ts.stripOptional tf))
+       | _ => none)
+    | .kotlin cfg =>
+      (match Lang.Kotlin.paramFacts cfg gens false false f with
+       | .ok p => some (row f (C04.Kt.isOptional p) (C04.Kt.stripOptional p))
+       | _ => none)
+    | .swift cfg =>
+      (match Lang.Swift.fieldType cfg gens f false with
+       | .ok (ty, _) =>
+         some (row f (C04.Sw.isOptional ty (Lang.Swift.fieldOptional f)) (C04.Sw.stripOptional ty (Lang.Swift.fieldOptional f)))
+       | _ => none)
+    | .scala cfg =>
+      (match Lang.Scala.paramFacts cfg gens f with
+       | .ok p => some (row f (C04.Sc.isOptional p) (C04.Sc.stripOptional p))
+       | _ => none)
+    | .go cfg =>
+      (match Lang.Go.fieldFacts E.U cfg f [] with
+       | .ok (g, _) => some (row f (C04.Go.isOptional cfg g) (C04.Go.stripOptional g))
+       | _ => none)
+    | .python cfg =>
+      (match Lang.Python.fieldFacts E cfg gens f {} with
+       | .ok (p, _) => some (row f (p.default == some s%"None") p.ty)
+       | _ => none))
+
 def ruleOf (s : Sx) : Option (Option Str) :=
   match s with
   | .atom "none" => some none
@@ -146,6 +194,28 @@ def ruleOf (s : Sx) : Option (Option Str) :=
   | _ => none
 
 def natList (x : Sx) : Option (List Nat) := do (← x.asList?).mapM Sx.asNat?
+
+
+/-- C09: the binding-semantics facts of `TsV.C09` for a single-file program, as JSON:
+the defined names, and per item the references (spelling, target, generic head?, known class) -/
+def c09Facts (lang : Generate.LangCfg) (P : ParsedData) : J :=
+  let tgt : C09.Target → J
+    | .type o => .arr [.str "type".toList, .str o]
+    | .param g => .arr [.str "param".toList, .str g]
+    | .parent o => .arr [.str "parent".toList, .str o]
+    | .inner o v => .arr [.str "inner".toList, .str o, .str v]
+  let known (r : C09.Ref) : J :=
+    if C09.Known_generic_head lang P r then .str "generic-head".toList
+    else if C09.Known_def_original lang P r then .str "def-original".toList
+    else if C09.Known_parent lang P r then .str "parent".toList
+    else if C09.Known_inner lang P r then .str "inner".toList
+    else .null
+  let rn := C09.renamesOf P
+  .obj [("defs", J.ofStrs (C09.allDefs lang P)),
+        ("shadow", .bool (C09.Known_shadow P)),
+        ("refs", .arr ((C09.typeItems P).flatMap fun it =>
+          (C09.refs lang rn it).map fun r =>
+            .arr [.str (C09.itemId it).original, .str r.spelling, tgt r.target, .bool r.head, known r]))]
 
 def handle (st : DriverState) (req : Sx) : DriverState × J :=
   match req with
@@ -249,6 +319,28 @@ def handle (st : DriverState) (req : Sx) : DriverState × J :=
         | .err e => .obj [("err", .str (Encode.errName e).toList)]
         | .panic p => .obj [("panic", .str p)])
       | _, _, _, _, _ => bad "generate")
+  | .list [.atom "c09-facts", l, .list tos, e, .list fs] =>
+    (st, match decodeLang l, Decode.strs tos, decodeExt st.U st.snake e, fs.mapM decodeSource with
+      | some lang, some targets, some ext, some files =>
+        let ctx : ParseContext := { ignoredTypes := Generate.ignoredTypes lang, multiFile := false, targetOs := targets }
+        (match Generate.parseAll ext ctx pickSmallest files with
+        | .ok arrivals =>
+          (match Pipeline.collect arrivals with
+           | [(_, P)] => .obj [("ok", c09Facts lang P)]
+           | [] => .obj [("ok", c09Facts lang {})]
+           | _ => bad "c09-facts: more than one crate")
+        | .err e => .obj [("err", .str (Encode.errName e).toList)]
+        | .panic p => .obj [("panic", .str p)])
+      | _, _, _, _ => bad "c09-facts")
+  | .list [.atom "c04-facts", l, e, f] =>
+    (st, match decodeLang l, decodeExt st.U st.snake e, Decode.file f with
+      | some lang, some ext, some file =>
+        (match Visitor.parseFile ext {} pickSmallest [] s%"out" s%"src/lib.rs" file with
+         | .ok (some d) => .obj [("ok", c04Facts ext lang d)]
+         | .ok none => .obj [("ok", .arr [])]
+         | .err e => .obj [("err", .str (Encode.errName e).toList)]
+         | .panic p => .obj [("panic", .str p)])
+      | _, _, _ => bad "c04-facts")
   | .list [.atom "writer-run", .list fs, now, .list outs] =>
     (st, match fs.mapM (fun e => match e with
             | .list [.str p, .str b, m] => do some (p, (⟨b, ← m.asNat?⟩ : Writer.FileState))
@@ -285,6 +377,25 @@ def handle (st : DriverState) (req : Sx) : DriverState × J :=
     (st, match Decode.ty t with
       | some ty => jOutcome Encode.ty (RustTypes.tryFrom ty)
       | none => bad "tryfrom")
+  | .list [.atom "format-type", l, .list gens, t] =>
+    -- C05: `ty.parse::<RustType>()` then `Language::format_type(&ty, &generics)` on a fresh printer
+    (st, match decodeLang l, Decode.strs gens, Decode.ty t with
+      | some lang, some gs, some sty =>
+        (match RustTypes.tryFrom sty with
+        | .ok rt =>
+          let text : Outcome Str := match lang with
+            | .typescript c => (Lang.TypeScript.formatType c gs rt []).bind fun r => .ok r.1
+            | .kotlin c => Lang.Kotlin.formatType c gs rt
+            | .swift c => (Lang.Swift.formatType c gs rt false).bind fun r => .ok r.1
+            | .scala c => Lang.Scala.formatType c gs rt
+            | .go c => (Lang.Go.formatType c rt []).bind fun r => .ok r.1
+            | .python c => (Lang.Python.formatType c gs rt {}).bind fun r => .ok r.1
+          (match jOutcome .str text with
+           | .obj kvs => .obj (kvs ++ [("ty", Encode.ty rt)])
+           | j => j)
+        | .err e => .obj [("err", .str (Encode.errName e).toList)]
+        | .panic p => .obj [("panic", .str p)])
+      | _, _, _ => bad "format-type")
   | .list [.atom "toposort", .list g] =>
     (st, match g.mapM natList with
       | some graph =>
